@@ -1,8 +1,69 @@
-(* Properties_C08.v — statements are added as the proofs land (see DESIGN.md). *)
-From Coq Require Import List ZArith.
-Require Import Tok GoVal Marshal.
+(* Properties_C08.v — C08: output is a deterministic function of the value; keys
+   are ordered as configured.  Statements only; proofs in DetermProof.v.
+   A Go map is [GVMap (Some entries)] where the order of [entries] stands for
+   Go's (randomised) iteration order; [vperm] relates two values that differ
+   only in such orders, at any depth. *)
+From Coq Require Import List ZArith Permutation Sorted.
+Require Import Tok TokGrammar GoVal Marshal ObjProof DetermProof.
 Import ListNotations.
 Open Scope Z_scope.
+
+(* the marshaller is a function: equal arguments, equal results — and it does not see iteration order *)
+Theorem C08_independent_of_map_iteration_order : forall E A t v v',
+  vperm v v' -> keys_distinct A (200 + 12 * vsize 100 v) t v = true ->
+  marshal_top E A t v = marshal_top E A t v'.
+Proof. exact marshal_top_perm_invariant. Qed.
+Print Assumptions C08_independent_of_map_iteration_order.
+
+(* keys_distinct: the *serial* keys of every map are pairwise distinct.  For string-keyed maps that is
+   automatic (Go map keys are distinct); for struct keys through a transform it asks the user's transform
+   to be injective — and it is needed: *)
+Theorem C08_non_injective_key_transform_is_order_dependent :
+  ~ (forall A f t v v', vperm v v' -> marshal A f t v = marshal A f t v').
+Proof. exact marshal_perm_invariant_needs_distinct. Qed.
+
+(* the two orders are strict total orders with the documented meaning *)
+Theorem C08_order_irreflexive : forall mode a, key_ltb mode a a = false.
+Proof. exact key_ltb_irrefl. Qed.
+Theorem C08_order_transitive : forall mode a b c, key_ltb mode a b = true -> key_ltb mode b c = true -> key_ltb mode a c = true.
+Proof. exact key_ltb_trans. Qed.
+Theorem C08_order_total : forall mode a b, a <> b -> key_ltb mode a b = true \/ key_ltb mode b a = true.
+Proof. exact key_ltb_total. Qed.
+Theorem C08_byte_order_is_lexicographic : forall a b, bytes_ltb a b = true <-> lex_lt a b.
+Proof. exact bytes_ltb_spec. Qed.
+Theorem C08_rfc7049_is_length_then_bytes : forall a b,
+  rfc7049_ltb a b = true <-> (length a < length b)%nat \/ (length a = length b /\ bytes_ltb a b = true).
+Proof. exact rfc7049_spec. Qed.
+
+(* map keys are emitted in the configured order: the atlas default for a map type without its own entry ... *)
+Theorem C08_map_keys_in_default_order : forall A f kt vt es ts,
+  atlas_get A (GMap kt vt) = None ->
+  marshal A f (GMap kt vt) (GVMap (Some es)) = MOk ts ->
+  exists str, map_stringer A kt = Some str /\
+    top_keys ts = map fst (sort_keys (key_ltb (a_mode A)) (stringified str es)).
+Proof. exact map_value_keys_default_mode. Qed.
+
+(* ... the entry's own mode for a map type with a MapMorphism entry; in both cases sorted, a permutation of the keys *)
+Theorem C08_map_keys_sorted : forall A f mode kt vt es ts,
+  marshal_map A f mode kt vt (Some es) = MOk ts ->
+  exists str,
+    map_stringer A kt = Some str /\
+    existsb nonep (map_keyed str es) = false /\
+    top_keys ts = map fst (sort_keys (key_ltb mode) (stringified str es)) /\
+    Permutation (top_keys ts) (map fst (stringified str es)) /\
+    StronglySorted (fun a b => key_ltb mode b a = false) (top_keys ts) /\
+    (NoDup (map fst (stringified str es)) -> StronglySorted (fun a b => key_ltb mode a b = true) (top_keys ts)).
+Proof. exact map_keys_emitted_in_order. Qed.
+Print Assumptions C08_map_keys_sorted.
+
+(* struct fields come in the order the atlas entry lists them *)
+Theorem C08_struct_fields_in_atlas_order : forall A f t tg fields v ts,
+  marshal_entry A f (AE t tg (EStruct fields)) v = MOk ts ->
+  top_keys ts = map fe_name (live_fields fields v) /\
+  live_fields fields v = filter (has_route v) (live_fields fields v) /\
+  sublist (top_keys ts) (map fe_name fields).
+Proof. exact struct_keys_in_atlas_order. Qed.
+Print Assumptions C08_struct_fields_in_atlas_order.
 
 Example C08_rfc7049_order :
   marshal_top [] (Atlas [] 2) (GMap GStr (GNum IInt))
